@@ -1191,6 +1191,8 @@ def _check_P(out, ctx, label, sm, Q, wp, lengths, inp, reversible, stationary, r
     norm = float(np.abs(Q).sum(axis=1).max())
     cond = _eig_cond(Q)
     bump(out, "eig_cond", "<1e2" if cond < 1e2 else ("<1e4" if cond < 1e4 else ("<1e8" if cond < 1e8 else ">=1e8")))
+    # float tolerance of the relational identities: 1e-8, widened for huge t*|Q| (rounding of exp(t*lambda) scales with it)
+    TOL = max(REL_ATOL, 1e-11 * norm * (s + t) * min(max(1.0, cond), 1e2))
     Pst_by = {}
     for name, E in bes.items():
         if only and name not in only and name != "pade":
@@ -1214,25 +1216,25 @@ def _check_P(out, ctx, label, sm, Q, wp, lengths, inp, reversible, stationary, r
         i2 = dict(inp, backend=name, s=s, t=t, norm=norm * (s + t), eig_cond=cond)
         for nm, P, tt in (("s", Ps, s), ("t", Pt, t), ("s+t", Pst, s + t)):
             rs = float(np.abs(P.sum(axis=1) - 1).max())
-            if not rs <= REL_ATOL:
+            if not rs <= TOL:
                 _fail(out, "spec", f"P({nm}) rows do not sum to one", dict(i2, diff=rs), 1.0, rs, sig=f"P-rowsum:{name}")
-            if not P.min() >= -REL_ATOL:
+            if not P.min() >= -TOL:
                 _fail(out, "spec", f"P({nm}) has a negative entry", dict(i2, diff=float(-P.min())), ">= 0", float(P.min()),
                             sig=f"P-negative:{name}")
             if stationary:
                 d = float(np.abs(wp @ P - wp).max())
-                if not d <= REL_ATOL:
+                if not d <= TOL:
                     _fail(out, "spec", "pi P != pi for a stationary model", dict(i2, diff=d), 0.0, d, sig=f"P-stationary:{name}")
             if reversible:
                 F = wp[:, None] * P
                 d = float(np.abs(F - F.T).max())
-                if not d <= REL_ATOL:
+                if not d <= TOL:
                     _fail(out, "spec", "detailed balance fails for P", dict(i2, diff=d), 0.0, d, sig=f"P-detailed-balance:{name}")
         d0 = float(np.abs(P0 - eye).max())
         if not d0 <= P_ATOL:
             _fail(out, "spec", "P(0) is not the identity", dict(i2, diff=d0), "I", d0, sig=f"P-zero:{name}")
         dsg = float(np.abs(Ps @ Pt - Pst).max())
-        if not dsg <= REL_ATOL:
+        if not dsg <= TOL:
             _fail(out, "spec", "P(s)P(t) != P(s+t)", dict(i2, diff=dsg), 0.0, dsg, sig=f"P-semigroup:{name}")
         refs.append((label, name, Q, s + t, Pst, cond))
     # all back-ends agree: each one against Pade (Pade itself is held against the exact exponential by the reference check)
@@ -1241,7 +1243,7 @@ def _check_P(out, ctx, label, sm, Q, wp, lengths, inp, reversible, stationary, r
             if name == "pade":
                 continue
             d = float(np.abs(P - Pst_by["pade"]).max())
-            if not d <= REL_ATOL:
+            if not d <= TOL:
                 _fail(out, "spec", f"back-end {name} disagrees with pade",
                             dict(inp, s=s, t=t, backend=name, norm=norm * (s + t), eig_cond=cond, diff=d), 0.0, d,
                             sig=f"P-backends:{name}")
@@ -1254,7 +1256,7 @@ def _check_lf_psubs(out, label, sm, rng, inp_params):
     s, t = info["lengths"]["a"], info["lengths"]["b"]
     if s + t > 10:
         s, t = s / 2, t / 2
-    lengths = dict(info["lengths"], a=s, b=t, c=s + t)
+    lengths = dict(info["lengths"], a=s, b=t, c=s + t, d=0.0)  # edge d: length zero (the lower bound of LengthDefn)
     Ps = {}
     cond = _eig_cond(np.array(lf0.get_rate_matrix_for_edge("a").array))
     for expm in ("eigen", "checked", "pade", "either"):
@@ -1265,7 +1267,15 @@ def _check_lf_psubs(out, label, sm, rng, inp_params):
             else:
                 kw["mprobs"] = info["mprobs"]
             lf, _ = _draw(sm, label, rng, **kw)
-            Ps[expm] = {e: np.array(lf.get_psub_for_edge(e).array) for e in "abc"}
+            Ps[expm] = {e: np.array(lf.get_psub_for_edge(e).array) for e in "abcd"}
+            if expm == "either" and sm._mprob_model != "monomers":
+                # lf.get_motif_probs(): the values the calculator uses, a distribution
+                mp_api = np.array(lf.get_motif_probs().array, float)
+                mp_calc = np.array(U.read_mprobs(lf, sm)[0], float)
+                out["evaluations"] += 1
+                if mp_api.shape != mp_calc.shape or not np.abs(mp_api - mp_calc).max() <= 1e-12 or not abs(mp_api.sum() - 1) <= 1e-5 + 1e-9:
+                    _fail(out, "spec", "lf.get_motif_probs() is not the distribution the calculator uses", dict(model=label, mprobs=info.get("mprobs")),
+                          mp_calc.tolist()[:6], mp_api.tolist()[:6], sig="lf-motif-probs")
         except (ArithmeticError, np.linalg.LinAlgError):
             bump(out, "backend_unavailable", expm)
     inp = dict(model=label, params=info["params"], mprobs=info.get("mprobs") or info.get("wordprobs"), lengths=lengths, eig_cond=cond)
@@ -1274,6 +1284,9 @@ def _check_lf_psubs(out, label, sm, rng, inp_params):
         d = float(np.abs(P["a"] @ P["b"] - P["c"]).max())
         if not d <= REL_ATOL:
             _fail(out, "spec", "lf psubs: P(s)P(t) != P(s+t)", dict(inp, backend=expm, diff=d), 0.0, d, sig=f"lf-semigroup:{expm}")
+        d0 = float(np.abs(P["d"] - np.identity(P["d"].shape[0])).max())
+        if not d0 <= P_ATOL:
+            _fail(out, "spec", "lf psub of a zero-length edge is not the identity", dict(inp, backend=expm, edge="d", diff=d0), "I", d0, sig=f"lf-zero:{expm}")
         for e in "abc":
             rs = float(np.abs(P[e].sum(axis=1) - 1).max())
             if not rs <= REL_ATOL or not P[e].min() >= -REL_ATOL:
@@ -1302,7 +1315,14 @@ def _search_backends(out, ctx, rng, iters, refs):
         else:
             params = {p: rng.choice([1e-6, 1e-3, 1.0, 1e3, 1e6]) for p in sm.parameter_order}
         t = rng.choice([0.1, 1.0, 3.0])
-        lf, info = U.make_lf(sm, rng, params=params, lengths={e: t for e in U.EDGES})
+        try:
+            lf, info = U.make_lf(sm, rng, params=params, lengths={e: t for e in U.EDGES})
+        except (ArithmeticError, np.linalg.LinAlgError) as e:
+            # the default setting (expm='either') must supply a transition matrix for every in-bounds parameter vector
+            _fail(out, "spec", f"likelihood function with the default expm setting raised {type(e).__name__} on in-bounds parameter values",
+                  dict(model=label, params=params, t=t), "a valid rate / transition matrix", f"{type(e).__name__}: {str(e)[:120]}",
+                  sig=f"raised-default-expm:{type(e).__name__}")
+            continue
         Q = np.array(lf.get_rate_matrix_for_edge("a", calibrated=True).array)
         wp = np.array(_wprobs(sm, U.read_mprobs(lf, sm)))
         inp = dict(model=label, params=info["params"], mprobs=info["mprobs"])
@@ -1521,7 +1541,7 @@ def spec_check(ctx, budget):
 
             tb = traceback.extract_tb(e.__traceback__)
             where = next((f"{fr.filename.split('/')[-1]}:{fr.name}" for fr in reversed(tb) if "cogent3" in fr.filename), "?")
-            _fail(out, "spec", f"implementation raised {type(e).__name__} on in-bounds input ({where})", dict(model=label),
+            _fail(out, "spec", f"implementation raised {type(e).__name__} on in-bounds input ({where})", dict(model=label, **(getattr(e, "c05_info", None) or {})),
                         "a valid rate / transition matrix", f"{type(e).__name__}: {str(e)[:200]}", sig=f"raised:{type(e).__name__}:{where}")
     _search_backends(out, ctx, rng, 240 * budget, refs)
     _check_rate_classes(out, ctx, rng, 5 * budget)
@@ -1565,10 +1585,15 @@ def _replay_input(ctx, inp, sig):
     sm = U.get_model_by_label(label)
     rng = ctx.subrng("replay")
     kw = dict(params=inp.get("params"))
-    if sm._mprob_model == "monomers":
-        lf, info = _make_monomers(sm, rng, params=inp.get("params"), wordprobs=inp.get("mprobs"))
-    else:
-        lf, info = U.make_lf(sm, rng, params=inp.get("params"), mprobs=inp.get("mprobs"))
+    try:
+        if sm._mprob_model == "monomers":
+            lf, info = _make_monomers(sm, rng, params=inp.get("params"), wordprobs=inp.get("mprobs"))
+        else:
+            lf, info = U.make_lf(sm, rng, params=inp.get("params"), mprobs=inp.get("mprobs"), lengths=({e: inp["t"] for e in U.EDGES} if sig.startswith("raised-default-expm") else None))
+    except (ArithmeticError, np.linalg.LinAlgError) as e:
+        _fail(out, "spec", f"likelihood function with the default expm setting raised {type(e).__name__} on in-bounds parameter values",
+              inp, "a valid rate / transition matrix", f"{type(e).__name__}: {str(e)[:120]}", sig=f"raised-default-expm:{type(e).__name__}")
+        return out
     reversible = isinstance(sm, sub.TimeReversible) or (isinstance(sm, sub.Empirical) and bool(sm.symmetric))
     stationary = isinstance(sm, (sub.Stationary, sub.Empirical)) or label == "user:GeneralStationary"
     Q, wp = _check_Q(out, label, sm, lf, inp.get("edge", "a"), inp, reversible, stationary)
